@@ -24,7 +24,7 @@ func (c06) Budget(tier string) int {
 	if tier == "thorough" {
 		return 16000
 	}
-	return 640
+	return 2560
 }
 
 func (c06) Describe() engine.Info {
